@@ -441,7 +441,7 @@ func init() {
 	register(ruleSelect, ruleLast, ruleTrunc, ruleMethodTypes)
 	addProp(&PropSpec{
 		ID:          "C14",
-		Rules:       []string{"R-SELECT", "R-LAST", "R-TRUNC", "R-F2I", "R-STATE", "R-MODEGUARD", "R-LAUNDER", "R-LISTINDEX"},
+		Rules:       []string{"R-SELECT", "R-LAST", "R-TRUNC", "R-F2I", "R-STATE", "R-MODEGUARD", "R-LAUNDER", "R-LISTINDEX", "R-SUBEVAL"},
 		Explanation: "Selection by position as shapes of the subscript executor: the element loaded at array[i] reaches the continuation with no branch on its value; `last` is the recorded length minus one of the innermost subscripted array (recorded before the subscripts are evaluated, restored on every exit); subscript values are truncated, finiteness-checked and range-checked against int32; the out-of-bounds error is guarded by strictness; a failed subscript expression is never mistaken for index 0.",
 		Decided: []string{"R-SELECT: no value-dependent branch between array[i] and the continuation", "R-LAST: `last` = recorded size − 1; hard error outside a subscript",
 			"R-TRUNC + R-F2I: truncating conversion after a NaN/Inf check, int32 range test on the result", "R-STATE: innermost size restored on every exit",
@@ -451,11 +451,72 @@ func init() {
 	})
 	addProp(&PropSpec{
 		ID:          "C16",
-		Rules:       []string{"R-METHODTYPES", "R-F2I", "R-FINITE", "R-OVF", "R-TOWER"},
+		Rules:       []string{"R-METHODTYPES", "R-F2I", "R-FINITE", "R-OVF", "R-TOWER", "R-STATE"},
 		Explanation: "Domains and ranges of the item methods as finite tables and guard discipline: for each of the 12 methods the set of item types that reach the continuation is computed by walking the method with the input type fixed (abstract interpretation) and compared with the documented domain, every other type must leave through a suppressible error; conversions to integers are range-guarded as evaluated in float64; computed doubles are finiteness-checked; integer callbacks cannot wrap; the numeric representations are handled together; no method arm is missing.",
 		Decided: []string{"R-METHODTYPES: accepted-type table of all 12 methods (156 cells) and suppressible rejection", "R-F2I: .integer()/.bigint() conversions are range-safe (2^63 included)",
 			"R-FINITE: .double()/.number()/.decimal() never yield Inf/NaN", "R-OVF: .abs() cannot wrap", "R-TOWER", "R-METHODTYPES also reports a method constant without an arm in the dispatcher"},
 		NotDecided:  []string{"rounding (half away from zero vs banker's), the digit counting of .decimal(p,s) (D21)", ".string() round trips", "keyvalue ids (distinctness, stability)"},
 		Assumptions: []string{"item values have one of the 13 documented dynamic types"},
 	})
+}
+
+// --- R-SUBEVAL: subscript expressions are evaluated to a raw sequence ---------------------------
+
+var ruleSubEval = &Rule{
+	Name: "R-SUBEVAL", NeedSSA: true,
+	Doc: "between the subscript executor and the node dispatcher no function flattens a result sequence (the idiom: applying a nil node to the elements of an array found in the sequence): the sequence whose length is tested for 'a single numeric value' is the raw result of the subscript expression, so `[$.one]` with one = [1] is an error in both modes",
+	Run: func(p *Prog) *RuleOut {
+		out := newOut("R-SUBEVAL")
+		sub := p.itemArm("ArrayIndexNode")
+		if sub == nil {
+			out.undecided("subscript executor", "-", "", "anchor unresolved")
+			return out
+		}
+		reach := p.reachFromCut([]*ssa.Function{sub}, func(f *ssa.Function) bool { return f == p.ssaOf(p.A.Dispatcher) })
+		idiom := 0
+		for _, fn := range p.execFuncs() {
+			for _, b := range fn.Blocks {
+				for _, ins := range b.Instrs {
+					if c, ok := ins.(*ssa.Call); ok && c.Call.StaticCallee() != nil && inModule(c.Call.StaticCallee()) && p.appliesNilNode(c) && p.pairKind(c.Call.StaticCallee().Signature) == "status" {
+						idiom++
+						if reach.Set[fn] {
+							out.viol(fnName(fn)+" flattens a result sequence below the subscript executor", p.pos(c.Pos()), fnName(fn),
+								"a subscript value that is an array holding one number is unwrapped and used as an index instead of being rejected", reach.path(p, fn)...)
+						}
+					}
+				}
+			}
+		}
+		nscope := 0
+		for _, fn := range moduleFuncs(reach.Set) {
+			if fnPkgPath(fn) == pkgExec {
+				nscope++
+			}
+		}
+		out.Counts["functions_between_subscript_and_dispatcher"] = nscope
+		out.Floors["functions_between_subscript_and_dispatcher"] = 3
+		out.Counts["flattening_idiom_sites_in_package"] = idiom
+		out.Floors["flattening_idiom_sites_in_package"] = 1
+		if len(out.Obs) == 0 {
+			out.ok("no result flattening below the subscript executor", p.pos(sub.Pos()), fnName(sub), fmt.Sprintf("%d functions in scope; the flattening idiom occurs %d time(s) elsewhere in the package", nscope, idiom))
+		}
+		return out
+	},
+}
+
+func init() { register(ruleSubEval) }
+
+// appliesNilNode: every node-typed argument of the call is the nil constant
+// (and there is one): the callee only distributes the elements.
+func (p *Prog) appliesNilNode(c *ssa.Call) bool {
+	n := 0
+	for _, a := range c.Call.Args {
+		if types.Identical(a.Type(), types.Type(p.A.Node)) || types.Implements(a.Type(), p.A.NodeIface) {
+			if !isNilConst(a) {
+				return false
+			}
+			n++
+		}
+	}
+	return n > 0
 }
